@@ -1193,6 +1193,7 @@ func (p *Proc) mutexOp(ec *ectx, fn *types.Func, recvExpr ast.Expr) {
 	if k == nil {
 		return
 	}
+	p.ctx.notes["sync.Mutex Lock/Unlock only move a ghost count of held mutexes (held(x.mu)); blocking, fairness and what other goroutines do in between are outside the model; a callee is taken to release what it acquires"] = true
 	h := p.heapGet(ec.st, "G:$held", ArrSort(SInt, SInt))
 	p.heapSet(ec.st, "G:$held", Store(h, k, Add(Sel(h, k), IntLit(d))))
 }
